@@ -17,7 +17,7 @@ EXPLANATION = (
     'From<Request<Op>> builds the variant whose payload is Op; R09.e a registry entry changes state only when a one-shot is consumed — a stream '
     'entry never does, so its id stays bound while it can be resolved, and nothing but a resolver\'s own resolve() overwrites its arity state (no placeholder '
     'is swapped into the registry). Byte-level equality with the typed core for every history is not decided '
-    '(C02 R02.b and C10 R10.d cover arity and codec).')
+    '(C02 R02.b and C10 R10.d cover arity and codec). R09.a also requires that nothing renumbers the registry slab (who-may-call), R09.f that Bridge::view serialises a fresh Core::view on every path.')
 
 
 def check_entry_writers(rep, rid, core):
